@@ -57,3 +57,30 @@ Definition b64decode (s : list N) : option (list N) :=
 (* characters that can occur in base64 text *)
 Definition is_b64_char (c : N) : bool :=
   match of_char c with Some _ => true | None => false end.
+
+(* What CPython 3.12's base64.b64decode(s, validate=True) (binascii.a2b_base64 with
+   strict_mode=True) really accepts: everything [b64decode] accepts and, in addition, ANY number
+   of '=' after a non-empty sequence of complete quanta ("QUJD=", "QUJD====" decode to "ABC").
+   Found by the exhaustive comparison in harness/c18.py; [b64decode] above is the RFC-strict reading. *)
+Fixpoint all_pad (l : list N) : bool :=
+  match l with [] => true | s :: r => (s =? PAD) && all_pad r end.
+
+Fixpoint dec6_py (l : list N) : option (list N) :=
+  match l with
+  | [] => Some []
+  | s0 :: s1 :: s2 :: s3 :: r =>
+      if (s0 =? PAD) || (s1 =? PAD) then None
+      else if s2 =? PAD then
+        if s3 =? PAD then match r with [] => Some [s0 * 4 + s1 / 16] | _ => None end else None
+      else if s3 =? PAD then
+        match r with [] => Some [s0 * 4 + s1 / 16; (s1 mod 16) * 16 + s2 / 4] | _ => None end
+      else if all_pad r then Some [s0 * 4 + s1 / 16; (s1 mod 16) * 16 + s2 / 4; (s2 mod 4) * 64 + s3]
+      else match dec6_py r with
+           | Some d => Some (s0 * 4 + s1 / 16 :: (s1 mod 16) * 16 + s2 / 4 :: (s2 mod 4) * 64 + s3 :: d)
+           | None => None
+           end
+  | _ => None
+  end.
+
+Definition b64decode_py (s : list N) : option (list N) :=
+  match sequence (map of_char s) with Some l => dec6_py l | None => None end.
